@@ -174,6 +174,9 @@ func (im *Impl) observe() (StateJ, error) {
 		}
 		s.Listed = append(s.Listed, lj)
 	}
+	for _, u := range im.g.VerifC18Locks() {
+		s.Locks = append(s.Locks, rig.Hex(u))
+	}
 	s.canon()
 	return s, nil
 }
@@ -185,6 +188,8 @@ func classify(err error) string {
 		return "notLeader"
 	case strings.Contains(msg, "limit store for upstream"):
 		return "noStore"
+	case strings.Contains(msg, "upstreamLock not exist"):
+		return "noLock"
 	case apierrors.IsNotFound(err):
 		return "notFound"
 	case strings.Contains(msg, "not equal to instance item type"):
